@@ -4,6 +4,14 @@ import json, sys
 
 ENGINE = "gsx"
 CHECKS = {
+ "C18": dict(
+   text="The real request path (SendRequestWithTimeout, sendAsyncWithTimeout, the dispatcher goroutine, Receive, popHandler) runs inside the symbolic executor against a scripted peer over a modelled pipe; request ids in responses are symbolic, two concurrent callers and the dispatcher are explored under every schedule with a bounded number of preemptions.",
+   note="Kernel + bounded schedules (<= 2/3 preemptions, <= 2 callers, policy None). Trusted: go/ssa, gsx goroutine interpretation, cvc5.",
+   ref="DESIGN.md §5 C18"),
+ "C19": dict(
+   text="The real timeout path runs against a silent or late peer: timer duration (timeout + leniency for every uint32 ms), Bad_Timeout, slot release, and liveness of the channel for a following request when the first request's timer races with its response (timer race explored by the executor).",
+   note="Kernel + bounded schedules; context cancellation and renewal requests are outside. Trusted: go/ssa, gsx, cvc5.",
+   ref="DESIGN.md §5 C19"),
  "C29": dict(
    text="Sixteen request shapes with symbolic / boundary field values are pushed through the real handleService of a server built by the harness, with and without an activated session, on a channel opened by the real OpenSecureChannel handling; every Go run-time panic in the handler or in goroutines it starts is an obligation.",
    note="One request per run (plus session setup); blocking sends, several clients and raw chunks are outside (C13 covers malformed chunks). Found and fixed: nil dereferences for unknown ids / missing sessions, NewTicker panic for bad publishing intervals, Browse panic (C33). Trusted: go/ssa, gsx, z3.",
@@ -107,8 +115,6 @@ CHECKS = {
 }
 NOT_APPLICABLE = {
  "C08": "needs an independent Part 6 layout implementation in the harness compared byte for byte through the uninterpreted primitives; expressible with the engine but not built in this revision (DESIGN §6); C07 only sees layout errors that break gopcua-to-gopcua traffic",
- "C18": "the registration / dispatcher / handler kernel needs the dispatcher goroutine driven by a scripted peer inside the executor; pieces exist (pipe model, bounded preemption) but no harness was built (DESIGN §6)",
- "C19": "as C18: the timeout select and the rcvLocker interplay need dispatcher + open() under bounded schedules; not built (DESIGN §6)",
  "C21": "client response handling is reachable only through SecureChannel.SendRequest with a live dispatcher; from package opcua this needs a full scripted OpenSecureChannel exchange inside the executor, which was not built (DESIGN §6)",
  "C22": "as C21 plus a secured channel with a scripted signing peer; the suspected defect (CreateSession swallows the signature error) is described in DESIGN §6 but not decided by a check",
  "C26": "reconnect fault sequences are outside the technique; the acknowledgement kernel needs the publish loop with a transport stub, not built (DESIGN §6)",
